@@ -17,7 +17,7 @@ def run(ctx):
     from astropy.cosmology import FlatLambdaCDM, LambdaCDM, Planck15
     out = {"violations": [], "broken": [], "coverage": {}, "assumptions": [
         "the integral model is a Simpson quadrature with dlna=0.01: agreement tolerances 2e-4 (EdS), 3% between models",
-        "CambGrowth is exercised in the thorough tier only"]}
+        "CambGrowth: two cosmologies (Planck15, flat wCDM), five redshifts"]}
     V = out["violations"]
 
     def viol(key, what, rp=None):
@@ -83,6 +83,20 @@ def run(ctx):
                     pt = np.array([float(np.atleast_1d(m.growth_factor(z))[0]) for z in zz])
                     if not np.allclose(np.asarray(fn(zz), float), pt, rtol=2e-4):
                         viol(f"{mname}/callable-vs-point", f"{mname} ({cname}): growth_factor_fn(zmin={zmin}) at z={zz.tolist()} gives {np.asarray(fn(zz)).tolist()}, point evaluation {pt.tolist()}", {"zmin": zmin})
+                    if zmin == 0.0:
+                        # ... over the whole quantified range [0, 1000], one redshift at a time
+                        zh = np.array([0.0, 10.0, 50.0, 250.0, 600.0, 950.0])
+                        pth = np.array([float(np.atleast_1d(m.growth_factor(z))[0]) for z in zh])
+                        fnh = np.array([float(np.atleast_1d(fn(z))[0]) for z in zh])
+                        if not np.allclose(fnh, pth, rtol=5e-4):
+                            i_ = int(np.argmax(np.abs(fnh / pth - 1)))
+                            viol(f"{mname}/callable-vs-point/high-z", f"{mname} ({cname}): growth_factor_fn()(z={zh[i_]}) = {fnh[i_]:.6g}, point evaluation {pth[i_]:.6g} (rel. dev {fnh[i_] / pth[i_] - 1:.3g})", {"z": float(zh[i_]), "cosmology": cname})
+                        # ... and evaluated on one array spanning the range (the natural way to use a callable)
+                        fna = np.asarray(fn(zh), float)
+                        if fna.shape == pth.shape and not np.allclose(fna, pth, rtol=2e-3):
+                            i_ = int(np.argmax(np.abs(fna / pth - 1)))
+                            viol(f"{mname}/callable-vs-point/array-spanning-low-and-high-z", f"{mname} ({cname}): the callable evaluated on the array {zh.tolist()} gives {fna[i_]:.6g} at z={zh[i_]}, point evaluation {pth[i_]:.6g} (rel. dev {fna[i_] / pth[i_] - 1:.3g})",
+                                 {"z": zh.tolist(), "cosmology": cname})
                     if not np.allclose(np.asarray(inv(pt), float), zz, rtol=2e-3, atol=2e-3):
                         viol(f"{mname}/inverse-vs-point", f"{mname} ({cname}): inverse growth function (zmin={zmin}) does not invert point evaluation", {"zmin": zmin})
                 # growth rate vs numerical -dlnD/dln(1+z)
@@ -105,6 +119,42 @@ def run(ctx):
                         env = auto_env(t, m, args={"z": zs})
                         reqs.append((f"Growth/Carroll1992_{meth}", len(zs), env, []))
                         exp.append((f"Carroll1992_{meth}", got, cname))
+        # CAMB-based growth (the default for wCDM cosmologies): normalisation, strict decrease, agreement with the integral model in LCDM, and
+        # element-wise evaluation of arrays in any order
+        if hasattr(gf, "CambGrowth"):
+            from astropy.cosmology import FlatwCDM
+            for cname, cosmo in (("Planck15", Planck15), ("wCDM w0=-0.8", FlatwCDM(H0=68.0, Om0=0.3, w0=-0.8, Ob0=0.048, Tcmb0=2.725))):
+                try:
+                    cg = gf.CambGrowth(cosmo)
+                except Exception as e:
+                    out["assumptions"].append(f"CambGrowth({cname}) not exercised: {type(e).__name__}")
+                    continue
+                za = np.array([0.0, 0.5, 1.0, 2.0, 5.0])
+                sc = np.array([float(np.atleast_1d(cg.growth_factor(z))[0]) for z in za])
+                ncase += 1
+                if abs(sc[0] - 1) > 1e-9 or np.any(np.diff(sc) >= 0):
+                    viol("CambGrowth/normalisation-monotone", f"CambGrowth ({cname}): growth_factor at z={za.tolist()} is {sc.tolist()} (expected 1 at z=0, strictly decreasing)", {"cosmology": cname})
+                for label, order in (("ascending", [0, 1, 2, 3, 4]), ("descending", [4, 3, 2, 1, 0]), ("shuffled", [2, 0, 4, 1, 3])):
+                    arr = np.asarray(cg.growth_factor(za[order].copy()), float)
+                    if arr.shape != (5,) or not np.allclose(arr, sc[order], rtol=1e-9):
+                        viol("CambGrowth/array-order", f"CambGrowth ({cname}): growth_factor on the {label} array {za[order].tolist()} gives {arr.tolist()}, element-wise evaluation gives {sc[order].tolist()}", {"cosmology": cname, "z": za[order].tolist()})
+                if cname == "Planck15":
+                    ref_ = np.array([gf.GrowthFactor(cosmo).growth_factor(z) for z in za])
+                    if np.max(np.abs(sc / ref_ - 1)) > 0.03:
+                        viol("CambGrowth/vs-integral-model", f"CambGrowth (Planck15) differs from the integral model by {float(np.max(np.abs(sc / ref_ - 1))):.3g}", {"cosmology": cname})
+            # the framework with the CAMB-based model, for either setting of the spline option
+            for spl in (False, True):
+                try:
+                    Tc = Transfer(transfer_model="EH", lnk_min=-8.0, lnk_max=4.0, dlnk=0.5, z=1.0, growth_model="CambGrowth", use_splined_growth=spl)
+                    got_ = float(np.atleast_1d(Tc.growth_factor)[0])
+                    want_ = float(np.atleast_1d(gf.CambGrowth(Tc.cosmo).growth_factor(1.0))[0])
+                    ncase += 1
+                    if abs(got_ / want_ - 1) > (2e-3 if spl else 1e-12):
+                        viol("transfer/growth-dispatch/CambGrowth", f"Transfer(growth_model='CambGrowth', use_splined_growth={spl}, z=1).growth_factor = {got_!r}, the model gives {want_!r}", {"use_splined_growth": spl})
+                except AttributeError as e:
+                    viol("CambGrowth/no-callable-form" if spl else "transfer/growth-dispatch/CambGrowth/raises", f"Transfer(growth_model='CambGrowth', use_splined_growth={spl}, z=1).growth_factor raises AttributeError: {e}", {"use_splined_growth": spl})
+                except Exception as e:
+                    viol("transfer/growth-dispatch/CambGrowth/raises", f"Transfer(growth_model='CambGrowth', use_splined_growth={spl}, z=1).growth_factor raises {type(e).__name__}: {e}", {"use_splined_growth": spl})
         # Transfer.growth_factor == selected model at the object's z, both spline settings, customised cosmology
         for rep in range(4 if quick else 30):
             cp = r.choice([{}, {"Om0": 0.45}, {"Om0": 0.25, "H0": 60.0}])
@@ -121,6 +171,23 @@ def run(ctx):
                 ncase += 1
                 if abs(got / want - 1) > (5e-4 if spl else 1e-12):
                     viol("transfer/growth-dispatch", f"Transfer(growth_model={gm}, cosmo_params={cp}, z={z}, use_splined_growth={spl}).growth_factor = {got!r}, the model at the framework's cosmology gives {want!r}", {"cosmo_params": cp, "z": z})
+        # ... also with user-supplied tabulation parameters of the model and a redshift beyond the tabulated range (the tabulation range of
+        # the inverse function is not a validity range of the model), after construction and after update(z=...)
+        for gm, gp in (("Carroll1992", {"zmax": 10.0, "dz": 0.05}), ("GenMFGrowth", {"zmax": 10.0, "dz": 0.05}), ("GenMFGrowth", {"zmax": 10.0}), ("GrowthFactor", {"dlna": 0.02})):
+            for spl in (False, True):
+                for z in (5.0, 40.0, 800.0):
+                    try:
+                        T = Transfer(transfer_model="EH", lnk_min=-8.0, lnk_max=6.0, dlnk=0.25, z=0.0, growth_model=gm, growth_params=dict(gp), use_splined_growth=spl,
+                                     cosmo_model="Planck13" if gm == "GenMFGrowth" else "Planck15")
+                        T.growth_factor
+                        T.update(z=z)
+                        want = float(np.atleast_1d(getattr(gf, gm)(T.cosmo, **gp).growth_factor(z))[0])
+                        got = float(np.atleast_1d(T.growth_factor)[0])
+                    except ValueError:
+                        continue
+                    ncase += 1
+                    if abs(got / want - 1) > (2e-3 if spl else 1e-12):
+                        viol("transfer/growth-dispatch/model-parameters", f"Transfer(growth_model={gm}, growth_params={gp}, use_splined_growth={spl}) after update(z={z}): growth_factor = {got!r}, the model gives {want!r}", {"growth_model": gm, "growth_params": gp, "z": z, "use_splined_growth": spl})
         res = eval_lean_many(reqs)
         nbad = 0
         for (name, got, cname), g in zip(exp, res):
